@@ -157,6 +157,7 @@ func runCLIMode(ctx context.Context, c *Case, m Mode, hcl bool, root string) (re
 }
 
 func runCLI(ctx context.Context, w *out.W, tier, tmp, outDir, only string) {
+	wantFKLine = false
 	w.Rule = "as in the api stage, through `atlas schema apply --auto-approve` (HCL and SQL desired states, --tx-mode file and none, _fk=1 and 0)"
 	n := 90
 	if tier == "thorough" {
